@@ -3,9 +3,14 @@
    [content_to_patterns] mirrors walker/src/lib.rs [content_to_patterns] (str::lines, blank lines,
    comments, trailing blanks), [applies] is the locality test of the P17 fix in
    [IgnoreRules::check] (walker/src/ignore_rules.rs), consulted only when [fixed_P17 = true].
-   Strings are byte lists.  Domain: lines whose trailing characters are ASCII (str::trim_end also
-   strips Unicode white space; a line whose last character is multi-byte makes the real
-   [Pattern::new] panic at `line[..line.len() - 1]` -- [pattern_new_panics] says when).
+   Strings are byte lists holding valid UTF-8 (a Rust &str); every test of the Rust code on
+   characters ('!', '/', '#', '\\', white space) is a test on their UTF-8 bytes here: the ASCII ones
+   are single bytes that never occur inside a multi-byte sequence, and [ws_len] knows the UTF-8
+   encodings of the non-ASCII characters with the Unicode property White_Space (what str::trim_end
+   and str::trim strip).  A line whose last character is multi-byte made [Pattern::new] panic at
+   `line[..line.len() - 1]` (finding P36): [pattern_new_panics fixed_P36] says when; with the repair
+   (the last CHARACTER is dropped) the result is the one [pattern_new] computes on bytes, because
+   no byte of a multi-byte sequence is '/'.
    No proofs in this file. *)
 From Coq Require Import List NArith Bool.
 From XV Require Import Glob.Match.
@@ -48,8 +53,41 @@ Fixpoint trim_start_by (f : byte -> bool) (s : bytes) : bytes :=
   | [] => []
   | x :: r => if f x then trim_start_by f r else s
   end.
-Definition trim_end (s : bytes) : bytes := trim_end_by is_ws s.
-Definition all_ws (s : bytes) : bool := forallb is_ws s.
+(* char::is_whitespace = the Unicode property White_Space.  [ws_len r]: the number of bytes of the white-space
+   character that ENDS the string whose reversal is r (0 = the string does not end in white space):
+   ASCII \t \n \v \f \r ' ' | U+0085 (C2 85) | U+00A0 (C2 A0) | U+1680 (E1 9A 80) | U+2000..U+200A (E2 80 80..8A)
+   | U+2028 U+2029 (E2 80 A8/A9) | U+202F (E2 80 AF) | U+205F (E2 81 9F) | U+3000 (E3 80 80) *)
+Definition ws_len (r : bytes) : nat :=
+  match r with
+  | [] => O
+  | b :: r1 =>
+    if is_ws b then 1%nat else
+    match r1 with
+    | [] => O
+    | b1 :: r2 =>
+      if N.eqb b1 194 && (N.eqb b 133 || N.eqb b 160) then 2%nat else
+      match r2 with
+      | [] => O
+      | b2 :: _ =>
+        if N.eqb b2 225 && N.eqb b1 154 && N.eqb b 128 then 3%nat
+        else if N.eqb b2 226 && N.eqb b1 128 &&
+                (((128 <=? b) && (b <=? 138)) || N.eqb b 168 || N.eqb b 169 || N.eqb b 175) then 3%nat
+        else if N.eqb b2 226 && N.eqb b1 129 && N.eqb b 159 then 3%nat
+        else if N.eqb b2 227 && N.eqb b1 128 && N.eqb b 128 then 3%nat
+        else O
+      end
+    end
+  end.
+(* every round removes at least one byte, so |r| rounds always suffice *)
+Fixpoint drop_ws_rev (fuel : nat) (r : bytes) : bytes :=
+  match fuel with
+  | O => r
+  | S f => match ws_len r with O => r | k => drop_ws_rev f (skipn k r) end
+  end.
+(* str::trim_end *)
+Definition trim_end (s : bytes) : bytes := rev (drop_ws_rev (length s) (rev s)).
+(* line.trim().is_empty(): nothing but white space *)
+Definition all_ws (s : bytes) : bool := match trim_end s with [] => true | _ => false end.
 
 Fixpoint last_byte (s : bytes) : option byte :=
   match s with [] => None | [x] => Some x | _ :: r => last_byte r end.
@@ -93,8 +131,10 @@ Definition pattern_body (original : bytes) : bytes * bool * bool :=
   let line := if end_slash then drop_last line else line in
   (line, begin_exclamation, end_slash).
 
-(* `line[..line.len() - 1]` is not on a char boundary when the last character is multi-byte *)
-Definition pattern_new_panics (original : bytes) : bool :=
+(* `line[..line.len() - 1]` is not on a char boundary when the last character is multi-byte (finding P36);
+   [fixed_P36 = true]: the repair drops the last character with chars().next_back(), no panic *)
+Definition pattern_new_panics (fixed_P36 : bool) (original : bytes) : bool :=
+  if fixed_P36 then false else
   let '(line, _, _) := pattern_body original in
   match last_byte line with Some b => 128 <=? b | None => false end.
 
@@ -135,6 +175,9 @@ Definition is_rule_line (line : bytes) : bool := negb (all_ws line || starts_wit
 
 Definition content_to_patterns (src : source) (content : bytes) : list pattern :=
   map (fun l => pattern_new src (strip_trailing_blanks l)) (filter is_rule_line (lines content)).
+(* content_to_patterns panics when Pattern::new panics on one of the rule lines *)
+Definition content_panics (fixed_P36 : bool) (content : bytes) : bool :=
+  existsb (fun l => pattern_new_panics fixed_P36 (strip_trailing_blanks l)) (filter is_rule_line (lines content)).
 
 (* ---- the locality test of the P17 fix --------------------------------------------------------- *)
 Definition trim_slashes (s : bytes) : bytes := trim_end_by is_sep (trim_start_by is_sep s).
